@@ -114,6 +114,18 @@ def run(R, tier):
             if nh == 1 and not p.outcome.startswith("ret:"):
                 R.violation("R05.4", "exec:%s:tail" % "/".join(str(k) for k in key), "the handler's result must be the unit's result (tail position): %s" % p.describe())
     R.ok("R05.4", "exec:at-most-one-handler", "every exec path has at most one handler call or one recursion, in tail position")
+    # ... also when the handler leaves parameters of its unit unread: whatever the handler returned - its error in
+    # particular - is the unit's result; the left-over check (-108) belongs after a *successful* unit (C06/R06.3)
+    n_left = 0
+    for desc, ps in D.leaf_with_leftover():
+        for p in ps:
+            nh = sum(1 for n in p.call_names if n.endswith(("Command::event", "Command::query")))
+            if nh == 0:
+                continue
+            n_left += 1
+            if nh != 1 or not p.outcome.startswith("ret:") or not p.outcome[4:] in ("event", "query"):
+                R.violation("R05.4", "exec:leftover:%s" % desc, "with unread parameters left in the unit the handler's result is not returned as it is (a handler error would be replaced): %s" % p.describe())
+    R.floor("R05.4", "leaf paths with unread parameters", n_left, 5)
     for key, ps in rt.items():
         if len(key) == 2:
             for p in ps:
@@ -122,6 +134,21 @@ def run(R, tier):
                 if nx > 1 and key[1] != "ProgramMessageUnitSeparator":
                     R.violation("R05.4", "run_tokens:%s" % "/".join(key), "one unit executed %d times: %s" % (nx, p.describe()))
     R.ok("R05.4", "run_tokens:one-exec-per-unit", "each unit performs exactly one top-level exec")
+
+    # ---- R05.10 a lexical error inside the parameter list stays in the stream -------------------------------------------------
+    # Parameters hands a lexical error to the handler (as its Err) but must leave it unread: run_tokens meets it again
+    # after the unit and aborts the message with it even when the handler chose to carry on (an unreadable optional
+    # argument, say). A Parameters that consumes the error makes the failing unit succeed.
+    n_e = 0
+    for fn in ("next_optional_token", "next_token"):
+        tab = D.params_table(fn)
+        for (first, second), ps in sorted(tab.items(), key=lambda kv: repr(kv[0])):
+            if first != "ERR":
+                continue
+            n_e += 1
+            ok = bool(ps) and all(p.outcome == "Err(<lexer-error>)" and p.consumed == [] for p in ps)
+            R.check(ok, "R05.10", "%s[ERR]" % fn, "the error is reported to the handler and nothing is consumed", "a lexical error in the parameter list is consumed by Parameters::%s (%s): the message could go on after it" % (fn, "; ".join("%s consumed %s" % (p.outcome, p.consumed) for p in ps)))
+    R.floor("R05.10", "lexer-error rows of the Parameters tables", n_e, 2)
 
     # ---- R05.6 response unit latch -------------------------------------------------------------------------------------
     ru_adt = "scpi::parser::response::ResponseUnit"
@@ -135,7 +162,7 @@ def run(R, tier):
                 # field order from the ADT table
                 fields = [f["name"] for f in u.adts[ru_adt]["variants"][0]["fields"]]
                 vals = {"fmt": RefV(fmtcell, (), True), "result": res_state, "has_header": K(flags[0]), "has_data": K(flags[1])}
-                unit = AggV(ru_adt, {i: vals[n] for i, n in enumerate(fields)})
+                unit = AggV(ru_adt, {i: vals.get(n, TOP) for i, n in enumerate(fields)})
                 ucell = Cell(unit, "unit")
                 if meth == "header" and flags[1]:
                     continue  # documented precondition: header before data (debug_assert)
